@@ -46,10 +46,30 @@ def arm_waiter(c, trace):
     c.deferred.addCallback(fired)
 
 
+def arm_capture(c, trace):
+    """a real pending operation: captureScreen into memory, issued again whenever it completes (so that one is always waiting)"""
+    import io
+    try:
+        d = c.captureScreen(io.BytesIO(), format="png")
+    except Exception:  # noqa
+        return
+
+    def again(cl):
+        trace.append(("cb", "fired"))
+        if len(trace) < 200000:
+            arm_capture(c, trace)
+        return cl
+    d.addCallback(again)
+    d.addErrback(lambda f: None)
+
+
 def run_budgeted(kind, opts, chunks):
     c, trace, zlog = new_client(kind, **opts)
     if kind != "base":
-        arm_waiter(c, trace)
+        if sum(len(x) for x in chunks) % 2:
+            c._verif_capture = True          # armed once the session is established (see below)
+        else:
+            arm_waiter(c, trace)
     cnt = Counter()
     per = []
     total = 0
@@ -72,6 +92,10 @@ def run_budgeted(kind, opts, chunks):
         if exc in ("mem", "spin") and len(trace) > n0 + 2000:
             del trace[n0 + 2000:]          # a runaway handler: keep the harness itself within its memory limit
         t = toks(trace[n0:])
+        if getattr(c, "_verif_capture", False) and "made" in t and exc is None:
+            c._verif_capture = False
+            n1 = len(trace)
+            arm_capture(c, trace)
         if exc:
             t.append("raise:" + exc)
         per.append(t)
@@ -134,6 +158,10 @@ def gen_stream(r, kind, opts):
         for _ in range(nrect):
             enc = r.choice([0, 1, 2, 2, 4, 4, 5])
             w, h = r.choice([0, 0, 1, 2, 17]), r.choice([0, 0, 1, 2, 17])
+            if w == 0 and r.random() < .4:
+                h = r.choice([65535, 30000, 4096])        # empty, but very tall: still no work to do
+            elif h == 0 and r.random() < .4:
+                w = r.choice([65535, 30000, 4096])
             x, y = r.choice([0, 1, 5]), r.choice([0, 1, 5])
             rects += struct.pack("!HHHHi", x, y, w, h, enc)
             if enc == 0:
@@ -329,7 +357,7 @@ def run(ctx):
     if mout is not None:
         for off, nz, nch, flat, kind, opts, stream, chunks in meta:
             mper = parse_model(mout[off:], nz, nch)
-            a = [t for t in until_close(flat) if t != "fired"]        # the harness' own waiter is not in the model
+            a = [t for t in until_close(flat) if t != "fired" and not (t.startswith("w:03") and len(t) == 22)]        # the harness' own waiter / captures are not in the model
             b = until_close([t for p in mper for t in p])
             if "diverged" in b:
                 ctx.disagree("model-diverged", {"input": {"stream": hx(stream)}})
